@@ -655,6 +655,24 @@ fn handle(req: &J) -> Result<J, String> {
             };
             Ok(json!({"ok": true, "hits": hits}))
         }
+        "fmt" => {
+            // Rust's own Display of a number (what Value::to_string produces)
+            let kind = req["kind"].as_str().unwrap_or("");
+            let text = match kind {
+                "i64" => req["v"].as_i64().ok_or("v")?.to_string(),
+                "u64" => req["v"].as_u64().ok_or("v")?.to_string(),
+                "f64" => f64::from_bits(req["bits"].as_u64().ok_or("bits")?).to_string(),
+                _ => return Err("bad kind".into()),
+            };
+            Ok(json!({"ok": true, "text": jb(&text)}))
+        }
+        "parse_f64" => {
+            let s = bytes_to_string(&req["s"])?;
+            match s.parse::<f64>() {
+                Ok(f) => Ok(json!({"ok": true, "bits": f.to_bits()})),
+                Err(_) => Ok(json!({"ok": false})),
+            }
+        }
         "regex" => {
             let p = bytes_to_string(&req["p"])?;
             let hay = bytes_to_string(&req["hay"])?;
